@@ -64,6 +64,10 @@ def run(rep, tier, driver):
             paths.append(("file-prefilled-list+generator", {"fn": "convert", "glycan_list": xs[:k], "generator": xs[k:], "sink": "file", "prefill": old, "verbose_none": 1}))
             paths.append(("file-prefilled-all-containers", {"fn": "convert", "glycan": xs[0], "glycan_list": xs[1:k], "file_lines": "\n".join(xs[k:2 * k]) + "\n",
                                                             "generator": xs[2 * k:], "sink": "file", "prefill": old, "cpu_count": 2, "verbose_none": 1}))
+            # the listing on stdout under every verbosity a caller may pass: log records go to stderr, nothing but the listing to stdout
+            for vname, v in (("debug", 10), ("notset", 0), ("false", False), ("info", 20), ("error", 40)):
+                paths.append(("stdout-verbose-%s" % vname, {"fn": "convert", "glycan_list": xs, "sink": "stdout", "verbose": v, "cpu_count": 1 + (bi + len(vname)) % 3}))
+            paths.append(("return-verbose-debug", {"fn": "convert", "glycan_list": xs, "verbose": 10, "cpu_count": 2}))
             paths.append(("stdout-generator-only", {"fn": "convert", "generator": xs, "sink": "stdout", "verbose_none": 1}))
             paths.append(("return-all-containers", {"fn": "convert", "glycan": xs[0], "glycan_list": xs[1:k], "file_lines": "\n".join(xs[k:2 * k]) + "\n",
                                                     "generator": xs[2 * k:], "cpu_count": 4, "verbose_none": 1}))
